@@ -324,24 +324,29 @@ func classifyPruneImage(img *vstore.Store) string {
 	return "other"
 }
 
-// rootRecordHole: the image holds the root record (v,1) of some version above the target while the root record of a
-// version between the target and v is gone (the range of versions has a hole).
+// rootRecordHole: the image still holds node records of some version H above the target while the root record (v,1) of a
+// version v with target < v <= H is gone: the remaining versions are not a contiguous range of roots, which is what
+// the first-version search (a binary search over hasVersion up to the latest node key) assumes.
 func rootRecordHole(img *vstore.Store, target, latest int64) bool {
-	has := func(v int64) bool {
-		k := make([]byte, 13)
-		k[0] = 's'
-		for i := 0; i < 8; i++ {
-			k[1+i] = byte(uint64(v) >> (56 - 8*uint(i)))
+	roots := map[int64]bool{}
+	highest := int64(0)
+	for _, kv := range img.Dump() {
+		if len(kv.K) != 13 || kv.K[0] != 's' {
+			continue
 		}
-		k[12] = 1
-		ok, _ := img.Clone().Has(k)
-		return ok
+		v := int64(0)
+		for i := 0; i < 8; i++ {
+			v = v<<8 | int64(kv.K[1+i])
+		}
+		if v > highest {
+			highest = v
+		}
+		if kv.K[9] == 0 && kv.K[10] == 0 && kv.K[11] == 0 && kv.K[12] == 1 {
+			roots[v] = true
+		}
 	}
-	missing := false
-	for v := target + 1; v <= latest; v++ {
-		if !has(v) {
-			missing = true
-		} else if missing {
+	for v := target + 1; v <= highest && v <= latest; v++ {
+		if !roots[v] {
 			return true
 		}
 	}
